@@ -27,7 +27,20 @@ CFG = {
             "parameter sets x 12 limit sets, reordered; ~215 limit spellings on a first page and beside an issued "
             "token. live cases - a real server whose handler reports rqctx.page_limit(): collection sizes "
             "{0,1,5,99,100,101,250,9999,10000,10001,20000} x 15 limits x markers, every limit spelling, 25 bad "
-            "tokens, duplicates: status, effective limit, item count, first item, token presence. Non-trivial: "
+            "tokens, duplicates: status, effective limit, item count, first item, token presence. large-scope slice "
+            "(deterministic, tags large:*): envelope sizes m-1, m, m+1 for m in {256, 384, 512, 1024, 4096, 16384, "
+            "65536} bytes issued through ResultsPage::new and presented back hand-encoded; token lengths 255..257, "
+            "1023..1025, 4095..4097, 16384, 65535..65537 characters (runs, and valid envelopes padded with JSON "
+            "whitespace to 256 / 1024 / 4096 / 65536 characters); limit strings with leading zeros and plus signs "
+            "up to 64 characters, 64-digit numbers, every 2^k and 2^k +/- 1 for k <= 33; 2, 17 and 257 occurrences "
+            "of page_token (all valid / first broken / last broken), of limit, and of unknown parameters, through "
+            "from_str and over HTTP; query strings of 4 KiB, 64 KiB (thorough 1 MiB) into from_str and request "
+            "targets of 4096, 16384, 65000, 65534 (the longest the http crate's Uri lets through), 65535, 65536, "
+            "131072 bytes over HTTP (beyond 65534 hyper answers 414 itself: judged as 'a 4xx, dropshot not "
+            "reached'). Strings above 3000 bytes are written in the Coq case as (chunk, count) parts and repeated "
+            "parameters as (key, value, count), expanded by the judge and judged by the same functions; for a token "
+            "longer than 512 bytes the oracle's / observed selector is cut to 64 bytes (it cannot affect the "
+            "verdict: the length alone obliges a refusal). Non-trivial: "
             "every case except the empty token / empty query; distinct by case content.",
     "exhaustive_note": "single-character substitution is exhaustive over 256 code points x every position for the "
                        "grid base tokens named in the rule (quick 3 tokens, thorough 12), truncation / deletion "
@@ -52,6 +65,8 @@ CFG = {
         "visitor refusing 0: modelled",
         "base64 0.22.1 URL_SAFE engine: modelled concretely (Base64.v: strict, canonical padding, zero trailing "
         "bits) and compared with the crate on every token of the run",
+        "http::Uri / hyper (library): a request target longer than 65534 bytes is answered 414 by hyper before "
+        "dropshot sees it (URI_MAX_LEN in Run_C14.v); observed by the live large-scope cases",
         "the Query extractor mapping every serde_urlencoded error to HttpError::for_bad_request (400): one line "
         "of extractor/query.rs, modelled as status_of, observed by the live cases",
         "the limit a handler is given is pub(crate): the harness reads it from PaginationParams's derived Debug "
